@@ -43,7 +43,7 @@ fn reference(v: &Value, out: &mut Vec<u8>) -> Result<(), ()> {
 pub fn samples() -> Vec<Value> {
     vec![
         json!(null), json!(true), json!(false), json!(0), json!(-1), json!(i64::MIN), json!(i64::MAX), json!(u64::MAX),
-        json!(""), json!("a\"b\\c"), json!("line\nbreak"), json!("tab\there"), json!("back\\nslash-n"), json!("\u{0}\u{1f}\u{7f}"),
+        json!(""), json!("a\"b\\c"), json!("line\nbreak"), json!("line\\nbreak"), json!("x\\"), json!({"k\\": 1}), json!("a\\u0041"), json!("aA"), json!("tab\there"), json!("back\\nslash-n"), json!("\u{0}\u{1f}\u{7f}"),
         json!("\u{e9}\u{20ac}\u{1F600}"), json!([]), json!({}), json!([[], {}, [null]]), json!({"b": 1, "a": 2, "aa": 3, "B": 4, "": 5}),
         json!({"\u{e9}": 1, "z": 2, "\u{1F600}": 3, "\u{ffff}": 4}), json!({"k": {"y": [1, 2, {"x": "v"}], "x": -5}}),
         json!({"a": "1", "a1": 1}), json!([1, 23]), json!([12, 3]), json!(["1,2"]), json!(["1", "2"]), json!({"a": {"b": 1}}), json!({"a": "{\"b\":1}"}),
